@@ -145,6 +145,10 @@ class ProtoExporter:
         for literal in module.literals:
             pmod.literals.append(export_literal(literal))
 
+        # Check the name once more: the Modules exported since it was first checked,
+        # i.e. those instantiated by `module`, may have taken it in the meantime.
+        self.export_module_name(module)
+
         # Store references to the result, and return it
         mapping = ModuleMapping(module, pmod)
         self.modules_by_id[id(module)] = mapping
